@@ -272,3 +272,21 @@ impl std::hash::Hash for GoodCaseKey {
         self.0.to_ascii_lowercase().hash(state);
     }
 }
+
+
+// ---- checked slicing: `get(range).ok_or(..)?` bounds what follows exactly like an explicit length test
+pub fn good_get_range(data: &[u8], position: &mut usize) -> Result<u8, Err0> {
+    let fixed = data.get(*position..*position + 4).ok_or(Err0)?;
+    Ok(fixed[3])
+}
+pub fn bad_get_range(data: &[u8], position: &mut usize) -> Result<u8, Err0> {
+    let fixed = data.get(*position..*position + 4).ok_or(Err0)?;
+    Ok(fixed[4])
+}
+pub fn good_get_elem(data: &[u8], position: &mut usize) -> Result<u8, Err0> {
+    let first = match data.get(*position) {
+        Some(b) => *b,
+        None => return Err(Err0),
+    };
+    Ok(first.wrapping_add(data[*position]))
+}
